@@ -670,6 +670,48 @@ def parseLine (fuel : Nat) : P Command := do
   if !(← check .lf) then makeError
   else pure cmd
 
+/-! ### API for the session loop (`internal/session/command.go`)
+
+`parseLine fuel : P Command` is one call of `Parser.Parse()` on the parser state at hand: it starts with
+`Advance` (loading the byte after the LF that the previous call left as look-ahead) and ends with the LF
+of its own line as look-ahead, unread bytes in `PState.rest`. Calling it again on the resulting state is
+the next `Parse()` of the same parser. `parse fuel input` is the first call on a fresh parser
+(`PState.init input`). Fuel: any value above the number of unread bytes is enough
+(`Gluon.C11.parse_terminates`); `fuelFor` gives the driver's choice. Outcomes: `Res.ok cmd s`,
+`Res.err (.parse t) s` (`*rfcparser.Error`, `IsEOF()` iff `t = .eof`), `Res.err .ioEOF s` (input ended
+inside a literal: not a parser error, the reader exits), never `.panic`, never `.fuel`
+(`Gluon.C11.parse_outcomes`). After an error the reader calls `ConsumeInvalidInput`
+(`consumeInvalidInput` below) and uses `LastParsedTag` / `LastParsedCommand` (`lastParsedTag`,
+`lastParsedCommand`, functions of the state BEFORE the failed call). `PState.conts` counts the literal
+continuation requests (`+ Ready`) issued so far. -/
+
+/-- `Parser.LastParsedTag()` after a `Parse()` call on state `s`: the tag when `parseTag` succeeded and the
+tag is not DONE, else empty -/
+def lastParsedTag (fuel : Nat) (s : PState) : BStr :=
+  match (advance >>= fun _ => parseTag fuel) s with
+  | .ok tag _ => if lowerBytes tag = kw "done" then [] else tag
+  | _ => []
+
+/-- `Parser.LastParsedCommand()` after a `Parse()` call on state `s`: the lower-cased command word (also
+of an unknown command), `done` for DONE, empty when the tag or the SP after it was not accepted -/
+def lastParsedCommand (fuel : Nat) (s : PState) : BStr :=
+  match (advance >>= fun _ => parseTag fuel) s with
+  | .ok tag s1 =>
+    if lowerBytes tag = kw "done" then kw "done"
+    else match (consume .sp >>= fun _ => readKeyword fuel) s1 with
+      | .ok c _ => c
+      | _ => []
+  | _ => []
+
+/-- `Parser.ConsumeInvalidInput()` = `scanner.ConsumeUntilNewLine()` = `source.ReadBytes('\n')`: reads and
+discards bytes straight from the source up to and including the next LF; `false` = the source ended
+first (`io.EOF`; everything was consumed). The tokens are not touched: the byte that is the current
+token has already left the source. -/
+def consumeInvalidInput (s : PState) : PState × Bool :=
+  match s.rest.dropWhile (· != 10) with
+  | [] => ({ s with rest := [] }, false)
+  | _ :: r => ({ s with rest := r }, true)
+
 /-- run `Parse` once on a fresh parser over `input` -/
 def parse (fuel : Nat) (input : Bytes) : Res Command := parseLine fuel (PState.init input)
 
